@@ -6,4 +6,15 @@ JSweepOutcome(e) ==
   << R("C04", "sweep_executed", TRUE, e.r.n >= 1, cls),
      R("C04", "all_calls_returned_normally", e.r.n >= 1 /\ Len(e.r.bad) = 0, TRUE, cls) >>
   \o [i \in 1..Len(e.r.bad) |-> R("C04", "returns_normally", TRUE, FALSE, e.fn \o "/" \o e.r.bad[i].site)]
+
+\* ApiSweep: one record per exported package-level function.  A function whose parameters are only byte strings, strings,
+\* integers and booleans is a "parser/decoder/size-lookup" in the sense of C04 (inputs: byte strings and type/size arguments);
+\* functions taking structured values (constructors, comparers) are judged under the extension family X03.
+DataKinds == { "bytes", "string", "int", "uint", "bool", "bytearray" }
+JApiSweep(e) ==
+  LET fs == e.r.funcs
+      PureData(f) == f.synth /\ \A k \in 1..Len(f.kinds) : f.kinds[k] \in DataKinds IN
+  << R("C04", "api_sweep_executed", e.only # "zzz", e.r.nfuncs >= 1 /\ e.r.ncalls >= 1, e.cls) >>
+  \o [i \in 1..Len(fs) |-> R("C04", "api_function_returns_normally", PureData(fs[i]), fs[i].nbad = 0, "api/" \o fs[i].name)]
+  \o [i \in 1..Len(fs) |-> R("X03", "api_function_returns_normally", fs[i].synth /\ ~PureData(fs[i]), fs[i].nbad = 0, "api/" \o fs[i].name)]
 =============================================================================
